@@ -1,5 +1,7 @@
 import Poulpy.Model.Core.Mul
 import Poulpy.Lemmas.EpPhase
+import Poulpy.Lemmas.NegHal
+import Poulpy.Lemmas.MulTensor
 import Poulpy.Props.C07
 
 /-!
@@ -16,7 +18,9 @@ Level A (arithmetic of the offsets, all inputs): the split `cnv_offset → (hi, 
 keeps every convolution limb whose *position* lies above the output precision.
 Level B (exact polynomials): bilinear expansion of the product of two phases into the tensor
 columns, the pairwise trick, and the wrapping column arithmetic that makes `square` and `apply`
-agree.  What is not proved is listed at the end.
+agree; `tensor_phase` is the general-rank statement (ring laws of the negacyclic product by transfer from
+`AdjoinRoot (X^n+1)`).  Model level: `tensorSquare_eq_tensorApply` and `tensorApply_acc_eq_add` (ranks 1, 2).
+What is not proved is listed at the end.
 -/
 
 namespace C05
@@ -124,6 +128,37 @@ theorem tensor_secret_right (s a b : Poly) : Hal.negMul a (Hal.negMul s b) = Hal
 
 example : Hal.negMul [1, 2] (Hal.negMul [0, 1] [3, 4]) = Hal.negMul [0, 1] (Hal.negMul [1, 2] [3, 4]) := by decide
 
+/-- **tensor phase, general rank** (layer B).  With `phase(x) = Σ_{i<cols} σ_i ⋆ x_i` (`σ_0 = 1`, `σ_i = s_i`),
+the product of the two phases is the double sum `Σ_i Σ_j σ_i ⋆ σ_j ⋆ (a_i ⋆ b_j)`: exactly what the tensor
+decrypts to, since its column `(i, j)`, `i ≤ j`, holds `a_i b_j + a_j b_i` (`a_i b_i` on the diagonal) and is
+multiplied by `σ_i σ_j = σ_j σ_i` (`tensor_pair_symm`).  Uses associativity / commutativity of the exact
+negacyclic product (transferred from `AdjoinRoot (X^n+1)`, `Lemmas/NegRing.lean`, `Lemmas/NegHal.lean`). -/
+theorem tensor_phase (n cols : Nat) (hn : 0 < n) (σ a b : Nat → Poly)
+    (hσ : ∀ i, (σ i).length = n) (ha : ∀ i, (a i).length = n) (hb : ∀ i, (b i).length = n) :
+    Hal.negMul (sumR n (fun i => Hal.negMul (σ i) (a i)) cols) (sumR n (fun j => Hal.negMul (σ j) (b j)) cols)
+      = sumR n (fun i => sumR n (fun j => Hal.negMul (σ i) (Hal.negMul (σ j) (Hal.negMul (a i) (b j)))) cols) cols := by
+  have hB : (sumR n (fun j => Hal.negMul (σ j) (b j)) cols).length = n :=
+    sumR_length n _ cols (fun j _ => by rw [Hal.negMul_length, hb])
+  rw [negMul_sumR_left n _ _ cols hB (fun i _ => by rw [Hal.negMul_length, ha])]
+  apply sumR_congr
+  intro i _
+  rw [negMul_sumR n _ _ cols (fun j _ => by rw [Hal.negMul_length, hb])]
+  apply sumR_congr
+  intro j _
+  rw [Hal.negMul_assoc n (σ i) (a i) _ (ha i) (by rw [Hal.negMul_length, hb]) hn, negMul_negMul_comm (a i) (σ j) (b j)]
+
+example : Hal.negMul (sumR 2 (fun i => Hal.negMul ([[1, 0], [0, 1]].getD i [0, 0]) ([[3, 1], [2, -1]].getD i [0, 0])) 2)
+      (sumR 2 (fun j => Hal.negMul ([[1, 0], [0, 1]].getD j [0, 0]) ([[1, 1], [0, 2]].getD j [0, 0])) 2)
+    = sumR 2 (fun i => sumR 2 (fun j => Hal.negMul ([[1, 0], [0, 1]].getD i [0, 0])
+        (Hal.negMul ([[1, 0], [0, 1]].getD j [0, 0]) (Hal.negMul ([[3, 1], [2, -1]].getD i [0, 0]) ([[1, 1], [0, 2]].getD j [0, 0])))) 2) 2 := by
+  decide
+
+/-- the `(i, j)` and `(j, i)` terms carry the same secret factor, so one tensor column serves both -/
+theorem tensor_pair_symm (si sj x : Poly) : Hal.negMul si (Hal.negMul sj x) = Hal.negMul sj (Hal.negMul si x) :=
+  negMul_negMul_comm si sj x
+
+example : Hal.negMul [0, 1] (Hal.negMul [1, 1] [2, 3]) = Hal.negMul [1, 1] (Hal.negMul [0, 1] [2, 3]) := by decide
+
 /-- **pairwise trick**: `cnv_pairwise_apply_dft` computes `(aᵢ+aⱼ)(bᵢ+bⱼ)`; subtracting the two
 diagonal products leaves the cross terms `aᵢbⱼ + aⱼbᵢ` (C07's expansion, restated for the tensor) -/
 theorem pairwise_trick (ai aj bi bj : Poly) (ha : ai.length = aj.length) (hb : bi.length = bj.length) :
@@ -153,16 +188,63 @@ theorem accumulate_column_arith (r di dj p : Int) :
 
 example : w64 (w64 (w64 (7 - 3) - 4) + 9) = w64 (7 + w64 (w64 (w64 (-3) - 4) + 9)) := by decide
 
+/-- **squaring = multiplying a ciphertext by itself** (model-level equality, ranks 1 and 2 — the ranks of the
+property's quantifier): `glwe_tensor_square_apply(a)` and `glwe_tensor_apply(a, a)` return the same tensor, bit
+for bit, for every operand, precision, offset, radix pair and accumulator type.  (Two different loop orders and
+`(p − dᵢ) − dⱼ` vs `(−dᵢ − dⱼ) + p` in wrapping arithmetic.) -/
+theorem tensorSquare_eq_tensorApply (big : Bool) (n rb rs off b : Nat) (a : List Col) (k : Nat) (res0 : List Col)
+    (ha : a.length = 2 ∨ a.length = 3) (hr : res0.length = a.length * (a.length + 1) / 2) :
+    tensorSquare big n rb rs off b a k res0 = tensorApply false big n rb rs off b a k a k res0 := by
+  unfold tensorSquare tensorApply
+  simp only [Nat.two_mul]
+  rcases ha with h | h
+  · rw [h] at hr ⊢
+    match res0, hr with
+    | [r0, r1, r2], _ =>
+      exact square_eq_apply_cols2 n rs _ _ r0 r1 r2
+        (fun i d hd => cnvNorm_shape _ _ _ _ _ _ _ _ _ _ _ hd) (fun i j p hp => cnvNorm_shape _ _ _ _ _ _ _ _ _ _ _ hp)
+  · rw [h] at hr ⊢
+    match res0, hr with
+    | [r0, r1, r2, r3, r4, r5], _ =>
+      exact square_eq_apply_cols3 n rs _ _ r0 r1 r2 r3 r4 r5
+        (fun i d hd => cnvNorm_shape _ _ _ _ _ _ _ _ _ _ _ hd) (fun i j p hp => cnvNorm_shape _ _ _ _ _ _ _ _ _ _ _ hp)
+
+example : tensorSquare false 2 4 2 4 4 [[[1, -2], [3, 0]], [[2, 1], [-1, 1]]] 8 (zeroCols 2 3 2)
+    = tensorApply false false 2 4 2 4 4 [[[1, -2], [3, 0]], [[2, 1], [-1, 1]]] 8 [[[1, -2], [3, 0]], [[2, 1], [-1, 1]]] 8 (zeroCols 2 3 2)
+    ∧ (tensorSquare false 2 4 2 4 4 [[[1, -2], [3, 0]], [[2, 1], [-1, 1]]] 8 (zeroCols 2 3 2)).isSome = true := by decide
+
+/-- **the accumulate variant adds exactly the product** (ranks 1 and 2): `glwe_tensor_apply_add_assign` leaves in
+every column the previous content plus (wrapping, limb-wise — `vec_znx_add_assign`) the column that
+`glwe_tensor_apply` computes; `zs` is whatever the non-accumulating call finds in its output (it is overwritten). -/
+theorem tensorApply_acc_eq_add (big : Bool) (n rb rs off b : Nat) (a : List Col) (ka : Nat) (x : List Col) (kx : Nat)
+    (res0 zs : List Col) (ha : a.length = 2 ∨ a.length = 3)
+    (hr : res0.length = a.length * (a.length + 1) / 2) (hz : zs.length = a.length * (a.length + 1) / 2)
+    (hshape : ∀ r ∈ res0, ColShape n rs r) :
+    tensorApply true big n rb rs off b a ka x kx res0
+      = (tensorApply false big n rb rs off b a ka x kx zs).map (fun pr => List.zipWith (vecAddAssignW w64) res0 pr) := by
+  unfold tensorApply
+  rcases ha with h | h
+  · rw [h] at hr hz ⊢
+    match res0, hr, zs, hz, hshape with
+    | [r0, r1, r2], _, [z0, z1, z2], _, hs =>
+      exact acc_eq_add_cols2 n rs _ _ r0 r1 r2 z0 z1 z2 (hs r0 (by simp)) (hs r1 (by simp)) (hs r2 (by simp))
+        (fun i d hd => cnvNorm_shape _ _ _ _ _ _ _ _ _ _ _ hd) (fun i j p hp => cnvNorm_shape _ _ _ _ _ _ _ _ _ _ _ hp)
+  · rw [h] at hr hz ⊢
+    match res0, hr, zs, hz, hshape with
+    | [r0, r1, r2, r3, r4, r5], _, [z0, z1, z2, z3, z4, z5], _, hs =>
+      exact acc_eq_add_cols3 n rs _ _ r0 r1 r2 r3 r4 r5 z0 z1 z2 z3 z4 z5 (hs r1 (by simp)) (hs r2 (by simp)) (hs r4 (by simp))
+        (fun i d hd => cnvNorm_shape _ _ _ _ _ _ _ _ _ _ _ hd) (fun i j p hp => cnvNorm_shape _ _ _ _ _ _ _ _ _ _ _ hp)
+
+example : tensorApply true false 2 4 2 4 4 [[[1, -2], [3, 0]], [[2, 1], [-1, 1]]] 8 [[[0, 1], [1, 1]], [[2, 2], [0, -3]]] 8
+      [[[1, 1], [2, 2]], [[3, 3], [-1, -1]], [[0, 5], [5, 0]]]
+    = (tensorApply false false 2 4 2 4 4 [[[1, -2], [3, 0]], [[2, 1], [-1, 1]]] 8 [[[0, 1], [1, 1]], [[2, 2], [0, -3]]] 8
+        (zeroCols 2 3 2)).map (fun pr => List.zipWith (vecAddAssignW w64) [[[1, 1], [2, 2]], [[3, 3], [-1, -1]], [[0, 5], [5, 0]]] pr) := by
+  decide
+
 /-
-FULL STATEMENTS (not proved; checked by correspondence on every generated case, see docs/C05.md):
-* `tensorSquare big n rb rs off b a k res0 = tensorApply false big n rb rs off b a k a k res0`
-  (model-level equality; the proved part is `square_column_arith`, the unproved part is the
-  book-keeping of the two different loop orders over the `List.set` state);
-* `tensorApply true … res0` = column-wise `w64 (res0 + tensorApply false … 0)` (`accumulate_column_arith`
-  is the arithmetic core);
-* tensor phase for general rank with the secret folded in requires associativity
-  `(s ⋆ a) ⋆ b = s ⋆ (a ⋆ b)` of `Hal.negMul` for lists of equal length (needs `mulX^n = −1`);
-  `tensor_bilinear` + `tensor_secret_right` give the expansion up to that lemma;
+NOT PROVED (checked by correspondence on every generated case, see docs/C05.md):
+* `tensorSquare_eq_tensorApply` and `tensorApply_acc_eq_add` for ranks ≥ 3 (the property's quantifier is rank 1..2;
+  the loops are unfolded per rank, the column arithmetic `col_square` / `col_acc` is rank independent);
 * `maskCoeff (−2^s) x = x − x mod 2^s` for all `i64` x (the AND of `reim_from_znx_masked`); the
   mask's value is `msb_mask_value`, the AND is only exemplified;
 * relinearisation: C03's gadget statement applied to `gglweProductDft` (same `Hal.vmpFlat`, so
